@@ -70,7 +70,7 @@ inline Abstract gen_random(Choice& ch, bool allow_error)
     for (int i = 0; i < nrules; ++i)
     {
         Rule r; r.lhs = i < a.nN ? i : int(ch.below(uint32_t(a.nN)));
-        int ar = int(ch.weighted({2, 5, 5, 3, 1}));
+        int ar = int(ch.weighted({6, 15, 15, 9, 3, 2, 1}));
         for (int k = 0; k < ar; ++k)
         {
             if (ch.chance(1, 2)) r.rhs.push_back(N(int(ch.below(uint32_t(a.nN)))));
@@ -127,8 +127,8 @@ inline Abstract gen_combinator(Choice& ch)
             Sym o = T(int(ch.below(uint32_t(nT)))), c = T(int(ch.below(uint32_t(nT))));
             a.rules.push_back(mk(x, {o, N(x), c})); a.rules.push_back(mk(x, {atom(x)}));
             break; }
-        case 5: { // sequence with an optional tail through a nullable helper when available
-            std::vector<Sym> rhs; int len = 2 + int(ch.below(3)); for (int j = 0; j < len; ++j) rhs.push_back(atom(x));
+        case 5: { // sequence (up to 6 symbols: statement-like rules)
+            std::vector<Sym> rhs; int len = 2 + int(ch.weighted({4, 4, 3, 2, 1})); for (int j = 0; j < len; ++j) rhs.push_back(atom(x));
             a.rules.push_back(mk(x, rhs));
             if (ch.chance(1, 2)) a.rules.push_back(mk(x, {atom(x)}));
             break; }
@@ -178,6 +178,8 @@ inline std::vector<Abstract> seed_grammars()
     // many nullable symbols in front of one token (deep stack per input character)
     add("nullable-ladder2", 6, {mk(0, {N(1), N(2)}), mk(2, {N(1), N(3)}), mk(3, {N(1), N(4)}), mk(4, {N(1), N(5)}), mk(5, {N(1), T(0)}), mk(1, {})});
     add("nullable-ladder4", 4, {mk(0, {N(1), N(1), N(1), N(2)}), mk(2, {N(1), N(1), N(1), N(3)}), mk(3, {N(1), T(0)}), mk(1, {})});
+    // statement-like rules of 5 and 6 symbols
+    add("long-rules", 3, {mk(0, {T(0), N(1), T(1), N(2), T(2)}), mk(0, {T(0), N(1), T(1), N(2), T(3), N(0)}), mk(1, {T(4)}), mk(1, {N(1), T(5), T(4)}), mk(2, {T(4), T(4)}), mk(2, {})});
     // palindromic-like nesting
     add("nesting", 2, {mk(0, {T(0), N(0), T(1)}), mk(0, {T(0), N(1), T(1)}), mk(1, {T(2)}), mk(1, {T(2), N(1)})});
     return v;
